@@ -656,7 +656,9 @@ fn check_decl_identifiers(file: &File, scope: &Scope) -> Result<File, Diagnostic
                                 .with_labels(vec![field.loc.primary()])
                                 .with_notes(vec!["hint: expected enum, struct, custom_field, or checksum identifier".to_owned()]),
                         ),
-                        Some(Decl { desc: DeclDesc::Packet { .. }, .. }) => diagnostics.push(
+                        Some(Decl {
+                            desc: DeclDesc::Packet { .. } | DeclDesc::Group { .. }, ..
+                        }) => diagnostics.push(
                             Diagnostic::error().with_code(ErrorCode::InvalidTypeIdentifier)
                                 .with_message(format!(
                                     "invalid {} identifier `{}`",
